@@ -105,6 +105,13 @@ def lifeHandler : Handler (List String) where
         let l : Life := ⟨st = 1, ds, fs = 1, allok = 1, rn, dstop, fstop = 1⟩
         (s, [s!"obs events {name} {showCSV l.events}"])
       | _, _, _, _, _, _, _, _ => (s, ["obs bad-op"])
+    | "shared" :: rest =>
+      match kv rest "x", kv rest "y", kvNat rest "sx", kvNat rest "sy", (kv rest "ds").bind parseCSV, kvNat rest "allok",
+            (kv rest "run").bind parseCSV, kvNat rest "pisx", (kv rest "dstop").bind parseCSV, kvNat rest "fstop" with
+      | some x, some y, some sx, some sy, some ds, some allok, some rn, some pisx, some dstop, some fstop =>
+        let l : SharedLife := ⟨sx = 1, sy = 1, ds, allok = 1, rn, pisx = 1, dstop, fstop = 1⟩
+        (s, [s!"obs events {x} {showCSV l.eventsX}", s!"obs events {y} {showCSV (l.eventsY StatusTable.ringCap)}"])
+      | _, _, _, _, _, _, _, _, _, _ => (s, ["obs bad-op"])
     | _ => (s, ["obs bad-op"])
   onObs := fun s toks =>
     match toks with
